@@ -1,7 +1,7 @@
 """C14 — see props/cachefile.py (operation-list tie, oracles) and DESIGN.md section 5."""
 import cachefile
 
-CONE = ["Model/CacheFs.v", "Model/FileFlow.v", "Proofs/CacheProofs.v", "Model/Exec.v", "Model/StepExec.v", "Model/FileExec.v", "Model/FileSpec.v", "Proofs/FileSafe.v", "Model/FileLiveSpec.v", "Proofs/FileLive.v", "Model/CacheExec.v", "Model/CacheSpec.v", "Proofs/CacheSafe.v"]
+CONE = ["Model/CacheFs.v", "Model/FileFlow.v", "Proofs/CacheProofs.v", "Model/Exec.v", "Model/StepExec.v", "Model/FileExec.v", "Model/FileSpec.v", "Proofs/FileSafe.v", "Model/FileLiveSpec.v", "Proofs/FileLive.v", "Model/FileMeasureSpec.v", "Proofs/FileMeasure.v", "Model/CacheExec.v", "Model/CacheSpec.v", "Proofs/CacheSafe.v"]
 
 
 def run(res):
